@@ -144,7 +144,7 @@ Section Stmts.
     Sig (SUpd o :: todo) s rho rv -> ~ In (SUpd o) todo -> ~ In (SDel o) todo ->
     do_update o s = (r, s') -> r <> Unmodelled ->
     (r = Ok -> exists rho' rv', Sig todo s' rho' rv' /\
-                 (forall x, x <> o -> rho' x = rho x /\ rv' x = rv x) /\ rho' o <> None) /\
+                 (forall x, x <> o -> rho' x = rho x /\ rv' x = rv x /\ objs s' x = objs s x) /\ rho' o <> None) /\
     (r <> Ok -> SigL s').
   Proof.
     intros todo s rho rv o r s' S Hnu Hnd H Hr.
@@ -229,7 +229,7 @@ Section Stmts.
       assert (Hfree : newpk = k \/ work s newpk = None).
       { destruct (Z.eqb_spec newpk k); auto. cbn in Ei. destruct (work s newpk); [discriminate|auto]. }
       exists (upd rho o (Some newpk)), (upd rv o newv).
-      split; [|split; [intros x Hx; rewrite !upd_other by auto; auto|rewrite upd_same; discriminate]].
+      split; [|split; [intros x Hx; rewrite !upd_other by auto; cbn [objs set_work set_db]; rewrite HO1 by auto; auto|rewrite upd_same; discriminate]].
       assert (Hoth : forall x p, x <> o -> rho x = Some p -> p <> k /\ p <> newpk).
       { intros x p Hx Hp. split.
         - intros E. subst p. apply Hx. eapply Sinj; eauto.
@@ -239,8 +239,7 @@ Section Stmts.
       constructor.
       + (* SigL: only the table changed *)
         destruct L1 as [A1 A2 A3 A4 A5]. constructor; auto.
-        eapply sbo_trans; [|exact A1]. repeat split.
-      + intros x p Hp. cbn [work set_work set_db]. rewrite HW1. destruct (Nat.eqb_spec x o).
+      + intros x p Hp. cbn [work set_work set_db]. destruct (Nat.eqb_spec x o).
         * subst x. rewrite upd_same in Hp. inversion Hp; subst p. rewrite upd_same. apply updZ_same.
         * rewrite upd_other in Hp by auto. rewrite upd_other by auto.
           destruct (Hoth x p n0 Hp) as [P1 P2].
@@ -251,7 +250,7 @@ Section Stmts.
         * rewrite upd_same in Hy. rewrite upd_other in Hx by auto. inversion Hy; subst p.
           destruct (Hoth x newpk n0 Hx) as [_ X]. congruence.
         * rewrite upd_other in Hx, Hy by auto. eapply Sinj; eauto.
-      + intros p Hp. cbn [work set_work set_db] in *. rewrite HW1 in *.
+      + intros p Hp. cbn [work set_work set_db] in *.
         destruct (Z.eqb_spec p newpk).
         * subst p. left. exists o. apply upd_same.
         * rewrite updZ_other in Hp by auto. rewrite updZ_other by auto.
@@ -262,7 +261,7 @@ Section Stmts.
              left. exists x. rewrite upd_other; auto. intros E; subst x. congruence.
       + intros x Hx. assert (x <> o) by (apply Hsub; auto).
         destruct (Sud x) as [A [k' [B [C D]]]]; [destruct Hx; [left; right; auto|right; right; auto]|].
-        rewrite HO1 by auto. split; auto. exists k'. rewrite !upd_other by auto. auto.
+        cbn [objs set_work set_db]. rewrite HO1 by auto. split; auto. exists k'. rewrite !upd_other by auto. auto.
       + intros x Hx. destruct (Sins x (or_intror Hx)) as [A B]. split; auto.
         rewrite upd_other; auto. intros E; subst x. congruence.
       + intros x p Hp. destruct (Nat.eqb_spec x o).
@@ -271,20 +270,20 @@ Section Stmts.
           split.
           -- destruct (upd_sets_id (objs s o)) eqn:Eid.
              ++ destruct (odid ob1); auto.
-             ++ unfold upd_sets_id in Eid. destruct (ocid ob1) as [old|] eqn:Ec.
+             ++ unfold upd_sets_id in Eid. rewrite <- Q6 in Eid. destruct (ocid ob1) as [old|] eqn:Ec.
                 ** destruct (V2 old Ec) as [A B]. subst old.
-                   rewrite <- Q6, Ec in Eid.
                    destruct (odid (objs s o)) as [d|] eqn:Ed.
                    --- apply negb_false_iff in Eid. apply Z.eqb_eq in Eid. subst d.
-                       rewrite (Q8 ltac:(discriminate)). auto.
-                   --- destruct (odid ob1); auto. congruence.
+                       rewrite Q8 by discriminate. auto.
+                   --- exfalso. destruct (g_in _ _ _ _ _ (sl_good _ L) o Hin) as [Hlt _].
+                       destruct (sl_j _ L o Hlt) as [_ [J2 _]]. apply J2; [rewrite <- Q6; discriminate|exact Ed].
                 ** destruct (V1 Ec); auto.
           -- destruct (upd_sets_v (objs s o)) eqn:Ev.
              ++ destruct (odv ob1); auto.
              ++ unfold upd_sets_v in Ev. rewrite <- Q7 in Ev. destruct (ocv ob1) as [[old|]|] eqn:Ec.
                 ** destruct (odv (objs s o)) as [d|] eqn:Ed; [|discriminate].
                    apply negb_false_iff in Ev. apply Z.eqb_eq in Ev. subst d.
-                   rewrite (Q9 ltac:(discriminate)). rewrite (V4 old Ec). auto.
+                   rewrite Q9 by discriminate. rewrite (V4 old Ec). auto.
                 ** discriminate.
                 ** apply (V3 Ec).
         * rewrite upd_other in Hp by auto. rewrite upd_other by auto.
@@ -295,5 +294,245 @@ Section Stmts.
       + intros x Hx. cbn [objs set_work set_db]. destruct (Nat.eqb_spec x o).
         * subst x. fold ob1. destruct (g_in _ _ _ _ _ (sl_good _ L1) o Hin1) as [A _]. split; auto.
         * rewrite upd_other in Hx by auto. rewrite HO1 by auto. apply Sdom; auto.
+  Qed.
+
+  (* the INSERT of the pending object [o] *)
+  Lemma insert_step : forall todo s rho rv o r s',
+    Sig (SIns o :: todo) s rho rv -> ~ In (SIns o) todo ->
+    do_insert o s = (r, s') -> r <> Unmodelled ->
+    (r = Ok -> exists rho' rv', Sig todo s' rho' rv' /\
+                 (forall x, x <> o -> rho' x = rho x /\ rv' x = rv x /\ objs s' x = objs s x) /\ rho' o <> None) /\
+    (r <> Ok -> SigL s').
+  Proof.
+    intros todo s rho rv o r s' S Hni H Hr.
+    destruct S as [L Srow Sinj Scov Sud Sins Svals Sdom].
+    destruct (Sins o (or_introl eq_refl)) as [Hsn Hrho].
+    unfold do_insert in H.
+    destruct (odid (objs s o)) as [pk|] eqn:Ed; [|inversion H; subst; congruence].
+    destruct (odv (objs s o)) as [v|] eqn:Ev; [|inversion H; subst; congruence].
+    destruct (work s pk) eqn:Ew.
+    { inversion H; subst s' r. split; [congruence|]. intros _. exact L. }
+    inversion H; subst s' r. split; [|congruence]. intros _.
+    exists (upd rho o (Some pk)), (upd rv o v).
+    split; [|split; [intros x Hx; rewrite !upd_other by auto; auto|rewrite upd_same; discriminate]].
+    assert (Hoth : forall x p, rho x = Some p -> p <> pk).
+    { intros x p Hp E. subst p. rewrite (Srow x pk Hp) in Ew. discriminate. }
+    assert (Hpend : oin (objs s o) = false /\ o < n).
+    { destruct (sigl_n s L) as [N1 [N2 N3]].
+      apply (g_new _ _ _ _ _ (sl_good _ L)) in Hsn. destruct Hsn as [A [B C]]. split; auto.
+      destruct (oin (objs s o)) eqn:E; auto. destruct (g_in _ _ _ _ _ (sl_good _ L) o E) as [_ [_ [_ X]]]. congruence. }
+    constructor.
+    - destruct L as [A1 A2 A3 A4 A5]. constructor; auto.
+    - intros x p Hp. cbn [work set_work set_db]. destruct (Nat.eqb_spec x o).
+      + subst x. rewrite upd_same in Hp. inversion Hp; subst p. rewrite upd_same. apply updZ_same.
+      + rewrite upd_other in Hp by auto. rewrite upd_other by auto.
+        rewrite updZ_other by (eapply Hoth; eauto). apply Srow; auto.
+    - intros x y p Hx Hy. destruct (Nat.eqb_spec x o), (Nat.eqb_spec y o); subst; auto.
+      + rewrite upd_same in Hx. rewrite upd_other in Hy by auto. inversion Hx; subst p.
+        exfalso. eapply Hoth; eauto.
+      + rewrite upd_same in Hy. rewrite upd_other in Hx by auto. inversion Hy; subst p.
+        exfalso. eapply Hoth; eauto.
+      + rewrite upd_other in Hx, Hy by auto. eapply Sinj; eauto.
+    - intros p Hp. cbn [work set_work set_db] in *. destruct (Z.eqb_spec p pk).
+      + subst p. left. exists o. apply upd_same.
+      + rewrite updZ_other in Hp by auto. rewrite updZ_other by auto.
+        destruct (Scov p Hp) as [[x Hx]|X]; [|right; exact X].
+        left. exists x. rewrite upd_other; auto. intros E; subst x. congruence.
+    - intros x Hx.
+      destruct (Sud x) as [A [k' [B [C D]]]]; [destruct Hx; [left; right; auto|right; right; auto]|].
+      assert (x <> o). { intros E; subst x. destruct Hpend. congruence. }
+      cbn [objs set_work set_db]. split; auto. exists k'. rewrite !upd_other by auto. auto.
+    - intros x Hx. destruct (Sins x (or_intror Hx)) as [A B]. split; auto.
+      rewrite upd_other; auto. intros E; subst x. contradiction.
+    - intros x p Hp. cbn [objs set_work set_db]. destruct (Nat.eqb_spec x o).
+      + subst x. rewrite upd_same in Hp. inversion Hp; subst p. right; right. rewrite upd_same.
+        rewrite Ed, Ev. auto.
+      + rewrite upd_other in Hp by auto. rewrite upd_other by auto.
+        destruct (Svals x p Hp) as [X|[X|X]]; auto.
+        * destruct X; [discriminate|auto].
+        * destruct X; [discriminate|auto].
+    - intros x Hx. cbn [objs set_work set_db]. destruct (Nat.eqb_spec x o).
+      + subst x. destruct Hpend. split; auto.
+      + rewrite upd_other in Hx by auto. apply Sdom; auto.
+  Qed.
+
+  (* the DELETE of [o] *)
+  Lemma delete_step : forall todo s rho rv o r s',
+    Sig (SDel o :: todo) s rho rv -> ~ In (SUpd o) todo -> ~ In (SDel o) todo ->
+    do_delete o s = (r, s') -> r <> Unmodelled ->
+    (r = Ok -> exists rho' rv', Sig todo s' rho' rv' /\
+                 (forall x, x <> o -> rho' x = rho x /\ rv' x = rv x /\ objs s' x = objs s x) /\ rho' o = None /\
+                 odid (objs s' o) <> None /\ odv (objs s' o) <> None) /\
+    (r <> Ok -> SigL s').
+  Proof.
+    intros todo s rho rv o r s' S Hnu Hnd H Hr.
+    destruct S as [L Srow Sinj Scov Sud Sins Svals Sdom].
+    destruct (Sud o (or_intror (or_introl eq_refl))) as [Hin [k [Hk [Hrho Hw0]]]].
+    pose proof (Srow o k Hrho) as Hwk.
+    assert (Hsub : forall x, In (SUpd x) todo \/ In (SDel x) todo -> x <> o).
+    { intros x [X|X] E; subst; contradiction. }
+    unfold do_delete in H.
+    assert (HL : exists s1, (if needs_pk_load (objs s o) then load_in_flush o s else (Ok, s)) = (Ok, s1) /\
+                 SigL s1 /\ work s1 = work s /\
+                 (forall x, x <> o -> objs s1 x = objs s x) /\ obj_le (objs s o) (objs s1 o) /\
+                 (needs_pk_load (objs s o) = true -> objs s1 o = loaded (objs s o) k (rv o)) /\
+                 (needs_pk_load (objs s o) = false -> objs s1 o = objs s o)).
+    { destruct (needs_pk_load (objs s o)) eqn:En.
+      - destruct (load_step s o k (rv o) L Hin Hk Hwk Hw0) as [s1 [A [B [C [D E]]]]].
+        exists s1. split; [exact A|]. split; [exact E|]. split; [exact C|].
+        split; [|split; [|split]].
+        + intros x Hx. rewrite B. apply updN_other; auto.
+        + rewrite B, updN_same. apply loaded_le.
+        + intros _. rewrite B, updN_same. reflexivity.
+        + intros X; discriminate.
+      - exists s. split; [reflexivity|]. split; [exact L|]. split; [reflexivity|].
+        split; [auto|]. split; [apply obj_le_refl|]. split; [intros X; discriminate|auto]. }
+    destruct HL as [s1 [HL1 [L1 [HW1 [HO1 [HLE [HD1 HD2]]]]]]].
+    rewrite HL1 in H.
+    destruct HLE as [Q1 [Q2 [Q3 [Q4 [Q5 [Q6 [Q7 [Q8 Q9]]]]]]]].
+    assert (Hin1 : oin (objs s1 o) = true) by congruence.
+    assert (Hk1 : okey (objs s1 o) = Some k) by congruence.
+    destruct (g_rows _ _ _ _ _ (sl_good _ L1) o k Hin1 Hk1) as [v1 [Hv1 Hva1]].
+    destruct Hva1 as [V1 [V2 [V3 [V4 [V5 V6]]]]].
+    assert (Hwh : where_pk (objs s1 o) = Some k /\ odid (objs s1 o) <> None /\ odv (objs s1 o) <> None).
+    { destruct (needs_pk_load (objs s o)) eqn:En.
+      - rewrite (HD1 eq_refl). unfold needs_pk_load in En. unfold where_pk, loaded. cbn.
+        destruct (ocid (objs s o)) eqn:E1; [discriminate|]. destruct (odid (objs s o)) eqn:E2; [discriminate|].
+        split; [reflexivity|]. split; [discriminate|].
+        destruct (ocv (objs s o)) eqn:E3.
+        + destruct (g_rows _ _ _ _ _ (sl_good _ L) o k Hin Hk) as [v0 [_ [_ [_ [_ [_ [X _]]]]]]]. apply X. congruence.
+        + destruct (odv (objs s o)); discriminate.
+      - rewrite (HD2 eq_refl). unfold needs_pk_load in En.
+        destruct (g_in _ _ _ _ _ (sl_good _ L) o Hin) as [Hlt _].
+        destruct (sl_j _ L o Hlt) as [J1 [J2 J3]].
+        destruct (g_rows _ _ _ _ _ (sl_good _ L) o k Hin Hk) as [v0 [_ [U1 [U2 _]]]].
+        unfold where_pk. destruct (ocid (objs s o)) as [old|] eqn:E1.
+        + destruct (U2 old eq_refl) as [A B]. subst old. split; [reflexivity|]. split; [exact B|].
+          intros X. apply B. apply J1. exact X.
+        + destruct (odid (objs s o)) as [d|] eqn:E2; [|discriminate].
+          destruct (U1 eq_refl) as [X|X]; [discriminate|]. split; [congruence|]. split; [discriminate|].
+          intros X'. specialize (J1 X'). congruence. }
+    destruct Hwh as [Hwh [Hdid Hdv]]. rewrite Hwh in H.
+    inversion H; subst s' r. split; [|congruence]. intros _.
+    exists (upd rho o None), rv.
+    split; [|split; [intros x Hx; rewrite !upd_other by auto; cbn [objs set_work set_db]; rewrite HO1 by auto; auto|split; [apply upd_same|auto]]].
+    assert (Hoth : forall x p, x <> o -> rho x = Some p -> p <> k).
+    { intros x p Hx Hp E. subst p. apply Hx. eapply Sinj; eauto. }
+    constructor.
+    - destruct L1 as [A1 A2 A3 A4 A5]. constructor; auto.
+    - intros x p Hp. cbn [work set_work set_db]. destruct (Nat.eqb_spec x o).
+      + subst x. rewrite upd_same in Hp. discriminate.
+      + rewrite upd_other in Hp by auto. rewrite HW1.
+        rewrite updZ_other by (eapply Hoth; eauto). apply Srow; auto.
+    - intros x y p Hx Hy. destruct (Nat.eqb_spec x o), (Nat.eqb_spec y o); subst; auto.
+      + rewrite upd_same in Hx. discriminate.
+      + rewrite upd_same in Hy. discriminate.
+      + rewrite upd_other in Hx, Hy by auto. eapply Sinj; eauto.
+    - intros p Hp. cbn [work set_work set_db] in *. rewrite HW1 in *. destruct (Z.eqb_spec p k).
+      + subst p. rewrite updZ_same in Hp. congruence.
+      + rewrite updZ_other in Hp by auto. rewrite updZ_other by auto.
+        destruct (Scov p Hp) as [[x Hx]|X]; [|right; exact X].
+        left. exists x. rewrite upd_other; auto. intros E; subst x. congruence.
+    - intros x Hx. assert (x <> o) by (apply Hsub; auto).
+      destruct (Sud x) as [A [k' [B [C D]]]]; [destruct Hx; [left; right; auto|right; right; auto]|].
+      cbn [objs set_work set_db]. rewrite HO1 by auto. split; auto. exists k'. rewrite !upd_other by auto. auto.
+    - intros x Hx. destruct (Sins x (or_intror Hx)) as [A B]. split; auto.
+      rewrite upd_other; auto. intros E; subst x. congruence.
+    - intros x p Hp. destruct (Nat.eqb_spec x o).
+      + subst x. rewrite upd_same in Hp. discriminate.
+      + rewrite upd_other in Hp by auto. cbn [objs set_work set_db]. rewrite HO1 by auto.
+        destruct (Svals x p Hp) as [X|[X|X]]; auto.
+        * destruct X; [discriminate|auto].
+        * destruct X; [congruence|auto].
+    - intros x Hx. cbn [objs set_work set_db]. destruct (Nat.eqb_spec x o).
+      + subst x. rewrite upd_same in Hx. congruence.
+      + rewrite upd_other in Hx by auto. rewrite HO1 by auto. apply Sdom; auto.
+  Qed.
+
+  (* a statement list of one flush: no statement twice, no object both updated and deleted *)
+  Definition WfL (l : list stmt) : Prop :=
+    NoDup l /\ forall o, In (SUpd o) l -> ~ In (SDel o) l.
+  Lemma WfL_tail : forall a l, WfL (a :: l) -> WfL l.
+  Proof.
+    intros a l [H1 H2]. split.
+    - inversion H1; auto.
+    - intros o Ho Hd. apply (H2 o); right; auto.
+  Qed.
+
+  Definition stmt_obj (a : stmt) : nat := match a with SUpd o | SIns o | SDel o => o end.
+
+  Lemma stmts_fold : forall l s rho rv r s',
+    Sig l s rho rv -> WfL l -> foldM do_stmt l s = (r, s') -> r <> Unmodelled ->
+    (r = Ok -> exists rho' rv', Sig [] s' rho' rv' /\
+       (forall x, (forall a, In a l -> stmt_obj a <> x) -> rho' x = rho x /\ rv' x = rv x /\ objs s' x = objs s x) /\
+       (forall x, In (SUpd x) l \/ In (SIns x) l -> rho' x <> None) /\
+       (forall x, In (SDel x) l -> rho' x = None /\ odid (objs s' x) <> None /\ odv (objs s' x) <> None)) /\
+    (r <> Ok -> SigL s').
+  Proof.
+    induction l as [|a l IH]; intros s rho rv r s' S W H Hr.
+    - inversion H; subst. split; [|congruence]. intros _. exists rho, rv.
+      split; auto. split; [auto|]. split; [intros x [[]|[]]|intros x []].
+    - cbn [foldM] in H. apply bind_inv in H.
+      assert (Wt := WfL_tail _ _ W). destruct W as [W1 W2].
+      assert (Hna : ~ In a l) by (inversion W1; auto).
+      (* one step *)
+      assert (Step : forall ra sa, do_stmt a s = (ra, sa) -> ra <> Unmodelled ->
+                (ra = Ok -> exists rho1 rv1, Sig l sa rho1 rv1 /\
+                    (forall x, x <> stmt_obj a -> rho1 x = rho x /\ rv1 x = rv x /\ objs sa x = objs s x) /\
+                    (match a with SDel o => rho1 o = None /\ odid (objs sa o) <> None /\ odv (objs sa o) <> None
+                                | _ => rho1 (stmt_obj a) <> None end)) /\
+                (ra <> Ok -> SigL sa)).
+      { intros ra sa Ha Hra. destruct a as [o|o|o]; cbn [do_stmt stmt_obj] in *.
+        - destruct (update_step l s rho rv o ra sa S) as [A B]; auto;
+            try (intros X; apply (W2 o); [left; auto|right; auto]);
+            try (split; auto; intros E; destruct (A E) as [r1 [v1 [A1 [A2 A3]]]]; exists r1, v1; auto).
+        - destruct (insert_step l s rho rv o ra sa S) as [A B]; auto;
+            try (split; auto; intros E; destruct (A E) as [r1 [v1 [A1 [A2 A3]]]]; exists r1, v1; auto).
+        - destruct (delete_step l s rho rv o ra sa S) as [A B]; auto;
+            try (intros X; apply (W2 o); [right; auto|left; auto]);
+            try (split; auto; intros E; destruct (A E) as [r1 [v1 [A1 [A2 A3]]]]; exists r1, v1; auto). }
+      destruct H as [[s1 [H1 H2]]|[H1 Hn]].
+      + destruct (Step Ok s1 H1) as [A _]; [discriminate|].
+        destruct (A eq_refl) as [rho1 [rv1 [S1 [O1 P1]]]].
+        destruct (IH s1 rho1 rv1 r s' S1 Wt H2 Hr) as [B C]. split; auto.
+        intros E. destruct (B E) as [rho' [rv' [S' [U1 [U2 U3]]]]].
+        exists rho', rv'. split; auto. split; [|split].
+        * intros x Hx. destruct (U1 x) as [X1 [X2 X3]]; [intros b Hb; apply Hx; right; auto|].
+          destruct (O1 x) as [Y1 [Y2 Y3]]; [intros Z; apply (Hx a); [left; auto|auto]|].
+          repeat split; congruence.
+        * intros x [Hx|Hx].
+          -- destruct Hx as [Hx|Hx]; [|apply U2; auto].
+             subst a. cbn in P1.
+             destruct (U1 x) as [X1 _]; [|congruence].
+             intros b Hb Eb. destruct b as [o'|o'|o']; cbn in Eb; subst o'.
+             ++ contradiction.
+             ++ (* an insert of an updated object: impossible, it would be pending *)
+                destruct (sg_todo_ins _ _ _ _ S1 x Hb) as [Q1 Q2]. congruence.
+             ++ apply (W2 x); [left; auto|right; auto].
+          -- destruct Hx as [Hx|Hx]; [|apply U2; auto].
+             subst a. cbn in P1.
+             destruct (U1 x) as [X1 _]; [|congruence].
+             intros b Hb Eb. destruct b as [o'|o'|o']; cbn in Eb; subst o'.
+             ++ destruct (sg_todo_ud _ _ _ _ S1 x (or_introl Hb)) as [Q1 _].
+                destruct (sg_todo_ins _ _ _ _ S x (or_introl eq_refl)) as [Q2 _].
+                destruct (sigl_n _ (sg_l _ _ _ _ S1)) as [N1 [N2 N3]].
+                apply (g_new _ _ _ _ _ (sl_good _ (sg_l _ _ _ _ S1))) in Q2. destruct Q2 as [_ [Q2 _]].
+                destruct (g_in _ _ _ _ _ (sl_good _ (sg_l _ _ _ _ S1)) x Q1) as [_ [_ [_ Q3]]]. congruence.
+             ++ contradiction.
+             ++ destruct (sg_todo_ud _ _ _ _ S1 x (or_intror Hb)) as [Q1 _].
+                destruct (sg_todo_ins _ _ _ _ S x (or_introl eq_refl)) as [Q2 _].
+                apply (g_new _ _ _ _ _ (sl_good _ (sg_l _ _ _ _ S1))) in Q2. destruct Q2 as [_ [Q2 _]].
+                destruct (g_in _ _ _ _ _ (sl_good _ (sg_l _ _ _ _ S1)) x Q1) as [_ [_ [_ Q3]]]. congruence.
+        * intros x [Hx|Hx]; [|apply U3; auto].
+          subst a. cbn in P1. destruct P1 as [P1 [P2 P3]].
+          destruct (U1 x) as [X1 [X2 X3]]; [|rewrite X1, X3; auto].
+          intros b Hb Eb. destruct b as [o'|o'|o']; cbn in Eb; subst o'.
+          -- apply (W2 x); [right; auto|left; auto].
+          -- destruct (sg_todo_ins _ _ _ _ S1 x Hb) as [Q2 _].
+             destruct (sg_todo_ud _ _ _ _ S x (or_intror (or_introl eq_refl))) as [Q1 _].
+             apply (g_new _ _ _ _ _ (sl_good _ (sg_l _ _ _ _ S))) in Q2. destruct Q2 as [_ [Q2 _]].
+             destruct (g_in _ _ _ _ _ (sl_good _ (sg_l _ _ _ _ S)) x Q1) as [_ [_ [_ Q3]]]. congruence.
+          -- contradiction.
+      + destruct (Step r s' H1 Hr) as [_ B]. split; [congruence|auto].
   Qed.
 End Stmts.
